@@ -42,9 +42,28 @@ fn run_proofs(cfg: &str, lag: u64, cached: bool, rt: &tokio::runtime::Runtime, o
     }
 }
 
+fn run_race(cfg: &str, which: u8, rt: &tokio::runtime::Runtime, out: &mut Vec<Failure>) {
+    let r = if cfg == "whatsapp_v1" {
+        rt.block_on(akd::vx_export::c13_request_racing_publish::<WhatsAppV1Configuration>(which))
+    } else {
+        rt.block_on(akd::vx_export::c13_request_racing_publish::<ExperimentalConfiguration<ExampleLabel>>(which))
+    };
+    if let Ok(Some(what)) = r {
+        out.push(Failure {
+            clause: (if which == 0 { "directory_lookup/Directory.lookup#E_one_epoch" } else { "directory_lookup/Directory.key_history__tail#E_updates" }).into(),
+            case: vec!["c13".into(), "race".into(), cfg.into(), which.to_string()],
+            input: format!("[{cfg}] uncached instance at epoch 2 serves {}; right after its read of the epoch record another instance over the same database publishes epoch 3", if which == 0 { "lookup(a)" } else { "key_history(a, Complete)" }),
+            expected: "an error, or an answer that verifies against the (epoch, root hash) pair returned with it - never a proof stitched together from two epochs".into(),
+            observed: what,
+            finding_id: None,
+        });
+    }
+}
+
 pub fn search(_seed: u64, full: bool, rt: &tokio::runtime::Runtime) -> SearchResult {
     let mut out = vec![];
     let mut n = 0;
+    for cfg in ["whatsapp_v1", "experimental"] { for which in 0..2u8 { run_race(cfg, which, rt, &mut out); n += 1; } }
     for cfg in ["whatsapp_v1", "experimental"] {
         for lag in 0..=(if full { 5 } else { 3 }) { for cached in [false, true] { run_proofs(cfg, lag, cached, rt, &mut out); n += 1; } }
     }
@@ -59,6 +78,6 @@ pub fn search(_seed: u64, full: bool, rt: &tokio::runtime::Runtime) -> SearchRes
 
 pub fn replay(case: &[&str], rt: &tokio::runtime::Runtime) -> (bool, String) {
     let mut out = vec![];
-    if case[0] == "proofs" { run_proofs(case[1], case[2].parse().unwrap(), case.get(3).map(|s| *s == "1").unwrap_or(false), rt, &mut out); } else { run(case[0], case[1].parse().unwrap(), rt, &mut out); }
+    if case[0] == "race" { run_race(case[1], case[2].parse().unwrap(), rt, &mut out); } else if case[0] == "proofs" { run_proofs(case[1], case[2].parse().unwrap(), case.get(3).map(|s| *s == "1").unwrap_or(false), rt, &mut out); } else { run(case[0], case[1].parse().unwrap(), rt, &mut out); }
     match out.first() { Some(f) => (true, format!("{}: expected {}, observed {}", f.input, f.expected, f.observed)), None => (false, "holds".into()) }
 }
